@@ -22,7 +22,8 @@ RULE = ('abstract models of gen_model.py restricted to the common subset of both
         'errors and of warnings, supported-methods verdict. Not compared: positions/paths and edge action names (XML-only '
         'attribute). Non-trivial as C04; distinct = distinct XTA texts.')
 
-FAULTS = ['none', 'none', 'unknown-id-guard', 'type-error-update', 'side-effect-guard', 'unknown-id-decl', 'bad-arg-count', 'unknown-id-invariant']
+FAULTS = ['none', 'none', 'unknown-id-guard', 'type-error-update', 'side-effect-guard', 'unknown-id-decl', 'bad-arg-count', 'unknown-id-invariant', 'location-named-as-variable',
+          'location-named-as-variable']
 
 
 def inject(m, fault, pick):
@@ -53,6 +54,15 @@ def inject(m, fault, pick):
         t = m.templates[pick % len(m.templates)]
         t.locs[pick % len(t.locs)].inv = ('bin', '<=', G('nosuchclock'), ('int', 3))
         return fault
+    if fault == 'location-named-as-variable' and m.templates:
+        # a template-local variable with the name of a (preferably urgent / committed) location: the location is a duplicate definition
+        t = m.templates[pick % len(m.templates)]
+        named = [l for l in t.locs if l.name]
+        flagged = [l for l in named if l.urgent or l.committed] or named
+        if flagged:
+            l = flagged[pick % len(flagged)]
+            t.decls.append(M.Decl('int %s;' % l.name, vars=[(l.name, M.TS_INT, None)]))
+            return fault
     if fault == 'bad-arg-count' and m.insts:
         i = m.insts[pick % len(m.insts)]
         i[3] = list(i[3]) + [('int', 1)]
